@@ -122,6 +122,9 @@ class DriverMixin:
                     self.oblige("exit-%d/return-type(%s)" % (n_exit, v.t), o.st, z3.BoolVal(False), "post")
                     continue
                 env = Env(o.st, self.entry, dict(self.entry_locals, result=res))
+                if "result" in self.entry_locals:
+                    # a PARAMETER named `result`: plain `result` is the return value; old(result) / final(result) are the parameter
+                    env.locals["__param_result"] = self.entry_locals["result"]
                 for k, e in enumerate(c.ensures):
                     self.oblige("post-%d@exit-%d" % (k, n_exit), o.st, self.spec.boolean(e, env), "post")
                 self.frame(o.st, "exit-%d" % n_exit)
